@@ -15,9 +15,16 @@ import time
 import traceback
 from collections import Counter
 
+import numpy as np
+
 from vf.core import VERIF, LibRaised, Verdict, case_hash, jsonable, sub_seed
 
+NP_ERR = dict(divide="warn", over="warn", under="ignore", invalid="warn")
+
 PROPS = ["C%02d" % i for i in range(1, 21)]
+# where evidence/ and replay/<id>/found-* are written; the mutation driver points this at its scratch directory so that
+# runs against a mutated copy never touch the committed evidence
+OUT = os.environ.get("VERIF_OUT", VERIF)
 NPROC = int(os.environ.get("VERIF_NPROC", "16"))
 
 
@@ -90,6 +97,7 @@ def run_shard(args):
         known = known_findings()
 
         def handle(case):
+            np.seterr(**NP_ERR)  # a leak of the error state by one case must not change the verdict of the next
             v = safe_judge(sub, case)
             res["evaluations"] += 1
             h = case_hash(case)
@@ -217,8 +225,8 @@ def write_evidence(prop, tier, seed, cov, wall, violations, assumptions):
         "wall_s": round(wall, 2),
         "violations": violations,
     }
-    os.makedirs(os.path.join(VERIF, "evidence"), exist_ok=True)
-    path = os.path.join(VERIF, "evidence", prop + ".json")
+    os.makedirs(os.path.join(OUT, "evidence"), exist_ok=True)
+    path = os.path.join(OUT, "evidence", prop + ".json")
     tmp = path + ".tmp"
     with open(tmp, "w") as fh:
         json.dump(jsonable(ev), fh, indent=1, sort_keys=True, allow_nan=False, default=str)
@@ -333,13 +341,14 @@ def main(argv):
         if r["error"]:
             errors.append(f"{r['sub']} shard {r['shard']}:\n{r['error']}")
         for f in r["failures"][-1:]:
-            os.makedirs(rdir, exist_ok=True)
+            fdir = os.path.join(OUT, "replay", prop)
+            os.makedirs(fdir, exist_ok=True)
             h = case_hash(f["case"])
-            p = os.path.join(rdir, f"found-{r['sub']}-{h}.json")
+            p = os.path.join(fdir, f"found-{r['sub']}-{h}.json")
             with open(p, "w") as fh:
                 json.dump({"property": prop, "sub": r["sub"], "case": f["case"], "msg": f["msg"],
                            "key": f["key"], "seed": seed, "tier": tier}, fh, indent=1, allow_nan=True)
-            violations.append((os.path.relpath(p, VERIF), f["msg"]))
+            violations.append((os.path.relpath(p, VERIF) if OUT == VERIF else p, f["msg"]))
 
     wall = time.time() - t0
     thin = sorted(c for c in getattr(mod, "EXPECTED_CLASSES", []) if classes.get(c, 0) == 0)
